@@ -1,0 +1,11 @@
+//go:build !verif
+
+package main
+
+// Hooks of the verification harness (build tag verif); without the tag they do nothing.
+
+func verifWorkerID() int { return 0 }
+
+func verifGate(actor string, id int, act string) {}
+
+func verifEv(actor string, id int, act string, path string, objs ...interface{}) {}
